@@ -53,6 +53,7 @@ type SPkg struct {
 	Files   int
 	RawTail string // raw text appended to file 0 (mutants)
 	RawFile string // complete raw text of file 0 (token-level mutants)
+	RegExtra string // extra registry statements (C16 pairs)
 	NoOpt   bool
 }
 
@@ -238,6 +239,7 @@ func (p *SPkg) registry(modPath string) string {
 			fmt.Fprintf(&sb, "\tvgen.RegisterEnum(&vgen.Enum{Key: %q, Values: []int32{%s}, Make: func(v int32) any { return %s(v) }})\n", refKey(d), strings.Join(vals, ", "), d.Name)
 		}
 	}
+	sb.WriteString(p.RegExtra)
 	sb.WriteString("}\n")
 	return sb.String()
 }
